@@ -148,13 +148,10 @@ func Run(c *hx.Ctx) {
 			for d := 1; d < 256; d++ {
 				m := append([]byte{}, v.raw...)
 				m[i] ^= byte(d)
-				emit := c.Intn(c.N(110, 40)) == 0
+				emit := c.Intn(c.N(260, 60)) == 0
 				res := r.eval(&input{Kind: "deser", Label: "mut1:" + v.label, Buf: hx.Hex(m)}, emit)
 				if res.accepted {
 					c.Count("mut1:accepted")
-					if !emit && c.Intn(20) == 0 {
-						r.eval(&input{Kind: "deser", Label: "mut1-accepted:" + v.label, Buf: hx.Hex(m)}, true)
-					}
 				}
 			}
 		}
